@@ -52,6 +52,12 @@ GROUPS = [
 
 # list / subscript / implicit-this spellings (docs/language.md): (property or "handler", text, accepted?)
 LISTS = [
+    # comments are no construct of their own: between the clauses of a switch as anywhere else
+    ("ival", "{ switch (a.ival) {\n case 0: return 1;\n // between clauses\n case 1: return 2;\n /* before default */ default: return 3 } }", True),
+    ("ival", "{ switch (a.ival) { // after the brace\n case 0: return 1; default: return 2 // before the brace\n } }", True),
+    ("ival", "{ switch (a.ival) { default: return 2\n /* after a default that is not last */ case 0: return 1 } }", True),
+    ("handler", "switch (a.ival) { case 0: a.poke(); /* c */ default: a.act(1) /* d */ }", True),
+    ("ival", "{ /* c */ if (a.flag) /* c */ { return 1 /* c */ } /* c */ else /* c */ { return 2 } /* c */ }", True),
     # elisions: an array hole has no counterpart in a typed list (ECMAScript: an undefined element); a trailing comma makes none
     ("items", "[\"a\", , \"b\"]", False), ("items", "[, \"a\"]", False), ("items", "[\"a\", , ]", False), ("text", "[\"x\", , \"y\"][1]", False), ("items", "[a.text, , a.textB]", False),
     ("items", "[\"a\", \"b\", ]", True), ("items", "[a.text, ]", True), ("items", "[ /* none */ ]", True), ("items", "[\"a\", /* c */ \"b\"]", True),
